@@ -1,7 +1,7 @@
 """vx — Verus units: build one Verus file from a .vx template + functions extracted from /repo, run verus, map
 diagnostics back to obligations."""
 import os, re, json, subprocess, time, shlex
-from rx import (ExtractError, extract_fn, rule_R1_R3, find_loops, find_stmt, norm_ws)
+from rx import (ExtractError, extract_fn, extract_item, name_return, rule_R1_R3, find_loops, find_stmt, norm_ws)
 import r4
 
 VERIF = os.environ.get('POULPY_VERIF_ROOT') or os.path.dirname(os.path.dirname(os.path.abspath(__file__)))
@@ -90,6 +90,16 @@ def build_unit(name):
             i += 1
             _emit_extracted(u, target, args, block, subst, emit)
             continue
+        if d == 'extract_item':
+            target = rest.split()[0]
+            relpath, nm = target.split('::', 1)
+            kind, nm = nm.split(':') if ':' in nm else ('struct', nm)
+            text, ln, sha = extract_item(REPO, relpath, kind, nm)
+            emit(f'// ---- extracted item from {relpath}:{ln} `{kind} {nm}` sha={sha}', ('marker', nm, ''))
+            emit(text, ('real', nm, relpath))
+            u.functions.append(dict(name=nm, src_name=f'{kind} {nm}', path=relpath, line=ln, sha=sha, rules=['R1'], out_first=0, out_last=0, loops=0, item=True))
+            i += 1
+            continue
         raise ExtractError(f'{sf}:{no}: unknown directive @{d}')
     return u
 
@@ -100,6 +110,8 @@ def _emit_extracted(u, target, args, block, subst, emit):
     sig = rule_R1_R3(ft.sig, fired)
     body = rule_R1_R3(ft.body, fired)
     body = r4.apply(body, fired)
+    if 'ret' in args:
+        sig = name_return(sig, args['ret'])
     if 'rename' in args:
         sig = re.sub(r'\bfn\s+' + re.escape(fname) + r'\b', 'fn ' + args['rename'], sig, count=1)
     if args.get('strip_self') == '1':
